@@ -789,3 +789,98 @@ func VH07g_many_contexts() {
 	verif.Reach("many-contexts-surveyed")
 	sock.Close()
 }
+
+// VH07h_endless: SURVEY-TIME 0 - the survey never expires - combined with what
+// still has to work. (a) A receive deadline: a Recv with nothing to receive
+// returns the timeout error exactly at its deadline (not before, not never).
+// (b) A new survey supersedes the endless one while a Recv is waiting on it:
+// that Recv ends with ErrCanceled, a late response to the old survey is not
+// delivered, the response to the new one is. (c) The context is closed: the
+// waiting Recv ends. (d) A response arrives: delivered, and the survey stays
+// open for the next one. No expiry timer exists at any time.
+func VH07h_endless() {
+	lab := "C07/endless"
+	verif.RunClockTo(verif.Now() + time.Hour) // not at the very first instant of the clock (the zero time is special)
+	sock := vp.New("surveyor")
+	side := vt.Listen(sock, "a")
+	p0 := side.Peer("r0")
+	s := &sv{name: "sock", sock: sock}
+	var setopt func(string, interface{}) error = sock.SetOption
+	useCtx := verif.Choice("api", 2) == 1
+	if useCtx {
+		c1, err := sock.OpenContext()
+		verif.Assert(err == nil, lab+"/open-context")
+		s = &sv{name: "ctx", c: c1}
+		setopt = c1.SetOption
+	}
+	verif.Assert(setopt(mangos.OptionSurveyTime, time.Duration(0)) == nil, lab+"/set-survey-time-0")
+	D := 2 * time.Second
+	what := verif.Choice("what", 4)
+	if what == 0 {
+		verif.Assert(setopt(mangos.OptionRecvDeadline, D) == nil, lab+"/set-recv-deadline")
+	}
+	verif.Assert(s.send([]byte{1}) == nil, lab+"/survey")
+	verif.Quiesce()
+	verif.Assert(len(p0.Sent) == 1 && len(p0.Sent[0].H) == 4, lab+"/survey-not-sent")
+	if len(p0.Sent) != 1 {
+		return
+	}
+	id1 := be32(p0.Sent[0].H)
+	verif.Assert(verif.PendingCallbackTimers() == 0, lab+"/expiry-timer-armed-for-an-endless-survey")
+	resp := func(id uint32, tag byte) {
+		p0.Deliver([]byte{byte(id >> 24), byte(id >> 16), byte(id >> 8), byte(id), tag})
+	}
+	t0 := verif.Now()
+	var m *mangos.Message
+	var rerr error
+	g := verif.Go("recv", func() { m, rerr = s.recvMsg() })
+	verif.Quiesce()
+	verif.Assert(!g.Done(), lab+"/recv-returned-without-a-response")
+	switch what {
+	case 0:
+		verif.RunClockTo(t0 + D - 1)
+		verif.Assert(!g.Done(), lab+"/recv-returns-before-its-deadline")
+		verif.RunClockTo(t0 + D)
+		verif.Quiesce()
+		verif.Assert(g.Done() && rerr == mangos.ErrRecvTimeout, lab+"/recv-hangs-beyond-its-deadline-on-an-endless-survey")
+		// the survey is still open
+		resp(id1, 'a')
+		verif.Quiesce()
+		m2, e2 := s.recvMsg()
+		verif.Assert(e2 == nil && len(m2.Body) == 1 && m2.Body[0] == 'a', lab+"/endless-survey-closed-by-a-receive-timeout")
+	case 1:
+		verif.Assert(s.send([]byte{2}) == nil, lab+"/survey-2")
+		verif.Quiesce()
+		verif.Assert(g.Done() && rerr == mangos.ErrCanceled, lab+"/recv-on-a-superseded-endless-survey-not-cancelled")
+		id2 := be32(p0.Sent[len(p0.Sent)-1].H)
+		g2 := verif.Go("recv-2", func() { m, rerr = s.recvMsg() })
+		verif.Quiesce()
+		resp(id1, 'x')
+		verif.Quiesce()
+		verif.Assert(!g2.Done(), lab+"/late-response-to-the-superseded-endless-survey-delivered")
+		resp(id2, 'b')
+		verif.Quiesce()
+		verif.Assert(g2.Done() && rerr == nil && len(m.Body) == 1 && m.Body[0] == 'b', lab+"/response-to-the-new-survey-not-delivered")
+	case 2:
+		if !useCtx {
+			verif.Assume(false)
+		}
+		verif.Assert(s.c.Close() == nil, lab+"/context-close")
+		verif.Quiesce()
+		verif.Assert(g.Done() && rerr != nil, lab+"/recv-on-a-closed-context-still-waiting")
+		resp(id1, 'z')
+		verif.Quiesce()
+	case 3:
+		resp(id1, 'c')
+		verif.Quiesce()
+		verif.Assert(g.Done() && rerr == nil && len(m.Body) == 1 && m.Body[0] == 'c', lab+"/response-not-delivered")
+		verif.RunClockTo(verif.Now() + time.Hour)
+		resp(id1, 'd')
+		verif.Quiesce()
+		m2, e2 := s.recvMsg()
+		verif.Assert(e2 == nil && len(m2.Body) == 1 && m2.Body[0] == 'd', lab+"/endless-survey-ended")
+	}
+	verif.Assert(verif.PendingCallbackTimers() == 0, lab+"/expiry-timer-left-behind")
+	verif.Reach("endless-checked")
+	sock.Close()
+}
